@@ -38,11 +38,17 @@
    Server.run (Srv..), muxer.run + runInner (M..), muxerInstance.run (I..), session.initialize for one
    request in flight (Req..); the environment is the path manager / path as core/path.go behaves
    (Ready, NotReady = notify + drop and Close() every reader), the player (Open, Kick), the stream
-   (Crash), time (Idle = hlsMuxerCloseAfter elapses without requests, PauseElapsed = the re-creation
-   timer fires) and the scheduler of the path goroutine (Hold / Release: RemoveReader of a muxer on
-   that path does not return yet). Named deviations: createInstance never fails (InstanceCanFail),
-   session expiry (the 10 s cleanup ticker) is not modelled (it is C43's subject), one request is in
-   flight at a time.
+   (Crash), time (Idle = hlsMuxerCloseAfter elapses without requests, Wait = a part of it elapses,
+   PauseElapsed = the re-creation timer fires) and the scheduler of the path goroutine (Hold /
+   Release: RemoveReader of a muxer on that path does not return yet).
+   Named deviations from the code: (D1) createInstance never fails (neither the first nor a
+   re-created instance); (D2) session expiry (the 10 s cleanup ticker) is not modelled - it is C43's
+   subject; (D3) one request is in flight at a time; (D4) the three steps of path.setNotAvailable
+   (notify the server, drop and Close() the readers, close the stream) are one step; (D5) time is
+   abstract: a muxer is "stale" once hlsMuxerCloseAfter has elapsed since its last request;
+   GuardClose = FALSE is the design mutant "closeMuxer deletes whatever muxer the path has" (used to
+   see that layer 2 notices it; TRUE everywhere else). mux[m].life only steers the selection of
+   walks (coverage), no action reads it.
    Layer 2 (section "statement") is written over observations [muxers shown, sessions shown, reader
    calls per author, live goroutines, closed ...]: the same operators judge the bounded model (as
    invariants at rest) and what the harness observed on the real server (TraceHlsMuxer.tla).   *)
